@@ -172,7 +172,7 @@ func farCheckpoint() []chaincfg.Checkpoint {
 }
 
 func newRig(s *scn, name string) (*rig, error) {
-	r := &rig{s: s, now: time.Now(), log: zerolog.Nop(), served: map[int]int{}}
+	r := &rig{s: s, now: time.Now(), log: lib.DiscardLog(), served: map[int]int{}}
 	r.tree = buildBlockTree(s.Parents, s.Bits, s.Salt, r.now)
 	var ignore []*chainhash.Hash
 	for _, i := range s.Forbid {
